@@ -82,9 +82,18 @@ def ref_multi_mode_dot(T, Ms, modes, skip, tr):
     return out
 
 
+def _bw(w, R):
+    """weights with a single entry act as a scalar (NumPy broadcasting of reshape(weights, (1, -1)))"""
+    if w is None:
+        return None
+    w = np.asarray(w).reshape(-1)
+    return np.repeat(w, R) if w.size == 1 and R != 1 else w
+
+
 def ref_khatri_rao(Ms, w, mask):
     rows = [m.shape[0] for m in Ms]
     R = Ms[0].shape[1]
+    w = _bw(w, R)
     out = np.zeros((_prod(rows), R), dtype=_dtype(list(Ms) + ([w] if w is not None else [])))
     mflat = None if mask is None else np.asarray(mask).reshape(-1)
     for row, is_ in enumerate(np.ndindex(*rows)):  # ndindex is row-major: row = ravel(is)
@@ -181,6 +190,7 @@ def ref_tensordot(A, B, m1, m2, b1, b2):
 
 def ref_mttkrp(T, w, fs, mode):
     R = fs[0].shape[1]
+    w = _bw(w, R)
     out = np.zeros((T.shape[mode], R), dtype=_dtype([T] + list(fs) + ([w] if w is not None else [])))
     for idx in np.ndindex(*T.shape):
         for r in range(R):
@@ -522,6 +532,27 @@ def gen_descriptors(tier, rng):
     yield D("khatri_rao", [g.arr((2, 2)), g.arr((3, 3))], valid=False, n=2, weights=False, mask=False, skip=None)
     yield D("khatri_rao", [g.arr((2, 2)), g.arr((3, 2)), g.arr((2, 3))], valid=False, n=3, weights=False, mask=False, skip=0)
     yield D("khatri_rao", [g.arr((2, 1)), g.arr((3, 2))], valid=False, n=2, weights=False, mask=False, skip=None)
+    # weights / mask whose size is not the number of columns / rows: a single weight is broadcast as a scalar (valid, both backends);
+    # every other size must be rejected (R >= 2 and an enlarged mask axis >= 2, so that NumPy cannot broadcast it)
+    odd_rows = [(2,), (3,), (3, 2), (1, 2), (2, 2, 3), (2, 1, 3)] + ([] if quick else [(3, 3, 2), (2, 3), (1, 3, 2)])
+    for rows in odd_rows:
+        n = len(rows)
+        for skip in [None] + ([rng.randrange(n)] if n > 1 else []):
+            R = rng.choice([2, 3])
+            cplx = rng.random() < 0.25
+            Ms = [g.arr((r, R), cplx) for r in rows]
+            rem = [r for i, r in enumerate(rows) if i != skip]
+            yield D("khatri_rao", Ms + [g.arr((1,), cplx)], n=n, weights=True, mask=False, skip=skip)
+            yield D("khatri_rao", Ms + [g.arr((1,), cplx), g.mask(tuple(rem))], n=n, weights=True, mask=True, skip=skip)
+            yield D("khatri_rao", Ms + [g.arr((R + 1,), cplx)], valid=False, n=n, weights=True, mask=False, skip=skip)
+            if R == 3:
+                yield D("khatri_rao", Ms + [g.arr((2,), cplx)], valid=False, n=n, weights=True, mask=False, skip=skip)
+            big = [j for j, r in enumerate(rem) if r >= 2]
+            if big:
+                j = rng.choice(big)
+                bad = list(rem); bad[j] += 1
+                yield D("khatri_rao", Ms + [g.mask(tuple(bad))], valid=False, n=n, weights=False, mask=True, skip=skip)
+                yield D("khatri_rao", Ms + [g.arr((R,), cplx), g.mask(tuple(bad))], valid=False, n=n, weights=True, mask=True, skip=skip)
     yield D("khatri_rao", [g.arr((2, 2)), g.arr((3, 1)), g.arr((2, 2))], valid=False, n=3, weights=False, mask=False, skip=None)
 
     # ---- kronecker
@@ -674,6 +705,28 @@ def gen_descriptors(tier, rng):
                 arrays = [g.arr(s, cplx)] + fs + ([g.arr((R,), cplx)] if hasw else [])
                 yield D("mttkrp", arrays, weights=hasw, mode=mode)
 
+    # MTTKRP with a single weight (broadcast, valid) and malformed requests: weights of another length, factors of different
+    # rank (order >= 3: two used factors disagree; the memory variant reads only the first columns, so it is not called there),
+    # a factor whose row count is not the mode size (mode size >= 2, so that einsum cannot broadcast it)
+    for s_ in [(2, 3), (3, 2, 2), (2, 1, 3), (2, 2, 2, 2)] + ([] if quick else [(3, 3), (2, 3, 2), (3, 1, 2)]):
+        for mode in range(len(s_)):
+            R = rng.choice([2, 3])
+            cplx = rng.random() < 0.3
+            fs = [g.arr((d_, R), cplx) for d_ in s_]
+            T_ = g.arr(s_, cplx)
+            yield D("mttkrp", [T_] + fs + [g.arr((1,), cplx)], weights=True, mode=mode)
+            yield D("mttkrp", [T_] + fs + [g.arr((R + 1,), cplx)], valid=False, weights=True, mode=mode)
+            others = [l for l in range(len(s_)) if l != mode]
+            if len(others) >= 2:
+                l = rng.choice(others)
+                fs2 = list(fs); fs2[l] = g.arr((s_[l], R + 1), cplx)
+                yield D("mttkrp", [T_] + fs2, valid=False, weights=False, mode=mode, no_memory=True)
+            big = [l for l in others if s_[l] >= 2]
+            if big:
+                l = rng.choice(big)
+                fs3 = list(fs); fs3[l] = g.arr((s_[l] + 1, R), cplx)
+                yield D("mttkrp", [T_] + fs3, valid=False, weights=rng.random() < 0.5 and False, mode=mode)
+
     # ---- higher_order_moment (the mean divides by n_samples: n_samples * result is compared)
     for ns in (1, 2, 3, 4):
         for feat in ((1,), (2,), (3,), (2, 2), (1, 3), (2, 1, 2)):
@@ -700,7 +753,7 @@ def gen_descriptors(tier, rng):
 
 def backends_of(d):
     if d["fn"] == "mttkrp":
-        return ("core", "einsum", "memory")
+        return ("core", "einsum") if d["opts"].get("no_memory") else ("core", "einsum", "memory")
     if d["fn"] == "sample_khatri_rao":
         return ("core",)
     return BACKENDS
@@ -933,7 +986,7 @@ def run(chk):
         chk.disagreement("corr:C02 (Model/Tenalg.v vs tensorly/tenalg)", describe(d, be))
     chk.assumptions = ["np.dot / np.kron / np.einsum / broadcasting multiply / reshape / transpose behave as modelled at index level in Model/Tenalg.v and Base/Tensor.v (checked on this run's cases)",
                        "floating-point rounding is outside the model; integer-valued operands keep every partial sum far below 2^53 so the comparison is exact",
-                       "size-0 modes, negative modes of mode_dot, repeated modes with vector operands and khatri_rao of 1-D operands are outside the model; the int / negative / flat forms of tensordot's modes and batched_modes are normalised by the harness (explicit non-negative lists go to the model), so tenalg_utils._validate_contraction_modes is covered by the comparison of results, not modelled"]
+                       "size-0 modes, negative modes of mode_dot, repeated modes with vector operands (Python reaches negative indices there), khatri_rao of 1-D operands, higher_order_moment of order 0 (the code returns the mean, the model rejects), weights / masks that NumPy broadcasts in a degenerate way (weights longer than a single column R = 1, masks with size-1 axes or a flat mask under the einsum backend, which the core backend accepts and np.einsum rejects) are outside the model and not generated; the int / negative / flat forms of tensordot's modes and batched_modes are normalised by the harness (explicit non-negative lists go to the model), so tenalg_utils._validate_contraction_modes is covered by the comparison of results, not modelled"]
     chk.trusted = ["explicit-loop NumPy reference formulas in harness/props/C02.py (spec-side transcription used by the Python predicate)",
                    "higher_order_moment is compared as n_samples * moment (the division by n_samples is checked to be integer-exact to 1e-9)"]
     return chk.finish(CLASSIFIERS)
